@@ -68,6 +68,18 @@ def gen_cases(chk):
         callee = B.movr(0, 6) + B.alu('sub', 0, src=10) + B.EXIT
         p = B.movr(6, 10) + B.callx(1) + post + callee
         cases.append(Case(p, calc=calc, fam='r10-delta', budget=100))
+    # 8. nested calls under a per-function calculator: the frame size of a NON-entry function (keyed by its entry pc) decides
+    #    where its callee's frame lies -- r10 delta over two levels, and slot aliasing between level 1 and level 2
+    for calc in ((16, [(0, 32), (3, 96)]), (48, [(3, 16)]), (256, [(3, 64), (0, 16)]), (16, [(2, 96), (4, 96)]), None):
+        f2 = B.movr(0, 6) + B.alu('sub', 0, src=10) + B.EXIT
+        p = B.movr(6, 10) + B.callx(1) + B.EXIT + B.callx(1) + B.EXIT + f2        # f1 at pc 3, f2 at pc 5
+        cases.append(Case(p, calc=calc, fam='r10-delta-nested', budget=100))
+        for off in (-8, -16):
+            # f1 (pc 3): store 0x1111 at [r10+off]; call f2; reload -> r0.   f2: store 0x2222 at [r10+off]
+            f1 = B.load_const(3, 0x1111) + B.stx('dw', 10, 3, off) + B.callx(2) + B.ldx('dw', 0, 10, off) + B.EXIT
+            f2 = B.load_const(3, 0x2222) + B.stx('dw', 10, 3, off) + B.mov(0, 0) + B.EXIT
+            p = B.mov(0, 0) + B.callx(1) + B.EXIT + f1 + f2
+            cases.append(Case(p, calc=calc, fam='frames-nested', budget=200))
     # 7. touching the stack below its 512 bytes is an error, not a crash
     p = B.callx(1) + B.EXIT + B.callx(1) + B.EXIT + B.load_const(3, 1) + B.stx('dw', 10, 3, -8) + B.mov(0, 0) + B.EXIT
     cases.append(Case(p, fam='stack-exhausted', budget=100))
